@@ -44,7 +44,9 @@ pub fn ignore_filter(entry: &DirEntry, ignore: &Option<Gitignore>) -> bool {
         None => true,
         Some(gi) => {
             let path = entry.path();
-            let m = gi.matched(path, path.is_dir());
+            // Like git, treat a symlink to a directory as a file;
+            // only real directories match `dir/` patterns.
+            let m = gi.matched(path, entry.file_type().is_dir());
             !m.is_ignore()
         }
     }
